@@ -124,7 +124,11 @@ pub struct Res { pub viol: Vec<Viol>, pub compared: u64, pub built_pages: u64 }
 /// error kind for the evidence: variant of the root cause; for the catch-all variant also the message template
 fn err_kind(e: &PdfError) -> String {
     match crate::doc::root_cause(e) {
-        PdfError::Other { msg } => format!("Other({})", crate::panicmon::template(&msg.replace("/repo/", "")).chars().take(70).collect::<String>()),
+        PdfError::Other { msg } => {
+            // source locations inside messages are made relative to the crate (the tree may live anywhere)
+            let m = match (msg.find(" @ /"), msg.find("pdf/src/").or_else(|| msg.find("pdf_derive/src/"))) { (Some(a), Some(b)) if b > a => format!("{}{}", &msg[..a + 3], &msg[b..]), _ => msg.replace("/repo/", "") };
+            format!("Other({})", crate::panicmon::template(&m).chars().take(70).collect::<String>())
+        }
         other => { let _ = other; root_kind(e) }
     }
 }
